@@ -135,6 +135,10 @@ func newArrayType2(args ...px.Value) *ArrayType {
 			max = math.MaxInt64
 		}
 		rng = NewIntegerType(min, max)
+		if argc == 2 && *rng == *IntegerTypeZero {
+			// Array[0, 0] is the type of the empty array, whose element type is Unit (Parameters() writes it so)
+			element = DefaultUnitType()
+		}
 	default:
 		panic(illegalArgumentCount(`Array[]`, `0 - 3`, argc))
 	}
